@@ -344,9 +344,10 @@ func orEmpty(xs []string) []string {
 var StaleFirst bool
 
 type outcome struct {
-	reset  Reset
-	wrap   WrapEv
-	unwrap *UnwrapEv
+	reset   Reset
+	wrap    WrapEv
+	unwrap  *UnwrapEv
+	unwrap2 *UnwrapEv
 }
 
 // runCase executes one case: wrap with one plugin instance, unwrap the resulting envelope with another.
@@ -409,6 +410,7 @@ func runCase(n int, c Case, seed int64) (o outcome) {
 	}
 	ue := &UnwrapEv{E: "unwrap", Run: n, Order: []string{}}
 	o.unwrap = ue
+	var kept appencryption.KeyManagementService
 	func() {
 		defer func() {
 			if r := recover(); r != nil {
@@ -420,6 +422,7 @@ func runCase(n int, c Case, seed int64) (o outcome) {
 			ue.Err = "build: " + err.Error()
 			return
 		}
+		kept = k
 		got, err := k.DecryptKey(context.Background(), envelope)
 		if err != nil {
 			ue.Err = err.Error()
@@ -431,6 +434,34 @@ func runCase(n int, c Case, seed int64) (o outcome) {
 	uw.mu.Lock()
 	ue.Order = orEmpty(append([]string(nil), uw.decOrder...))
 	ue.WipedDecrypt = allZero(uw.decOut)
+	uw.mu.Unlock()
+	if kept == nil || StaleFirst {
+		return o
+	}
+	// ---- the outage is over: the SAME instance unwraps the envelope again with every region available
+	uw.mu.Lock()
+	uw.decUp = set(c.UCfg)
+	uw.decOrder = nil
+	uw.mu.Unlock()
+	u2 := &UnwrapEv{E: "unwrap2", Run: n, Order: []string{}}
+	o.unwrap2 = u2
+	func() {
+		defer func() {
+			if r := recover(); r != nil {
+				u2.Panic = fmt.Sprintf("%v\n%s", r, debug.Stack())
+			}
+		}()
+		got, err := kept.DecryptKey(context.Background(), envelope)
+		if err != nil {
+			u2.Err = err.Error()
+			return
+		}
+		u2.OK = true
+		u2.Same = bytes.Equal(got, orig)
+	}()
+	uw.mu.Lock()
+	u2.Order = orEmpty(append([]string(nil), uw.decOrder...))
+	u2.WipedDecrypt = allZero(uw.decOut)
 	uw.mu.Unlock()
 	return o
 }
@@ -511,6 +542,9 @@ func Replay(in, tracePath, out string, seed int64, repeat int) error {
 					notWipedDecrypt++
 				}
 			}
+		}
+		if o.unwrap2 != nil {
+			tw.Emit(o.unwrap2)
 		}
 		// non-trivial: at least two regions and at least one regional operation unavailable somewhere
 		if len(c.WCfg) >= 2 && (len(c.GenUp) < len(c.WCfg) || len(c.EncUp) < len(c.WCfg) || len(c.DecUp) < len(c.UCfg)) {
